@@ -36,9 +36,10 @@ class Unsupported(Exception):
 
 
 class _Promote(Exception):
-    def __init__(self, name):
+    def __init__(self, name, to="scalar"):
         super().__init__(name)
         self.name = name
+        self.to = to
 
 
 # functions that are MODELLED by a hand-written primitive of Model/Py.lean instead of being translated (floating-point
@@ -51,7 +52,9 @@ RECORD_PATHS = {"bicmodel": {("arguments", "num_clusters"): ("num_clusters", "in
                              ("clusters", "[]", "empirical_covariance"): ("empirical_covariance", "arr2"),
                              ("point_labels",): ("point_labels", ("list", "int"))}}
 
-ATTRS = {"admmargs": {"window_size": "int", "num_data_series": "int", "rho": "scalar", "sparsity_weight": "lam"}}
+ATTRS = {"admmargs": {"window_size": "int", "num_data_series": "int", "rho": "scalar", "sparsity_weight": "lam"},
+         "chmodel": {"clusters": ("list", "chcluster")},
+         "chcluster": {"size": "int", "member_points": ("list", "int")}}
 
 
 def default_value(t):
@@ -92,6 +95,10 @@ def lean_type(t):
         return "Py.ADMMArgs α"
     if t == "bicmodel":
         return "Py.BicModel α"
+    if t == "chmodel":
+        return "Py.ChModel"
+    if t == "chcluster":
+        return "Py.ChCluster"
     if isinstance(t, tuple) and t[0] == "dict":
         return f"Py.IntMap ({lean_type(t[2])})"
     if isinstance(t, tuple) and t[0] == "list":
@@ -150,6 +157,8 @@ SPECS = [
                  "num_blocks": "int"}, ret="scalar", field=True),
     dict(file="admm/solver.py", func="admm_update_z",
          params={"args": "admmargs", "u": "arr1", "x": "arr1"}, ret="arr1", field=True),
+    dict(file="cluster_metrics.py", func="calinski_harabasz_index",
+         params={"stacked_training_data": "arr2", "model": "chmodel"}, ret="scalar", field=True),
     dict(file="cluster_metrics.py", func="bayesian_information_criterion",
          params={"model": "bicmodel"}, ret="scalar", field=True,
          consts={"logdetOf": "Py.Arr2 α → α", "logOfInt": "Int → α"}),
@@ -265,6 +274,7 @@ class FuncTranslator:
         self.uses_ok = False
         self.in_err_loop = False
         self.loop_depth = 0
+        self.promoted = set()
         self.tmp = 0
 
     # ---- expressions: returns (lean text, type)
@@ -390,6 +400,13 @@ class FuncTranslator:
     def unify_num(self, l, lt, r, rt):
         if lt == rt:
             return l, r, lt
+        if {lt, rt} == {"rat", "scalar"} and self.spec.get("field"):
+            # a float that came out of `int / int` among other floats
+            if lt == "rat":
+                l = f"(Py.ratCast {l})"
+            else:
+                r = f"(Py.ratCast {r})"
+            return l, r, "scalar"
         if {lt, rt} == {"int", "scalar"} and self.spec.get("field"):
             # Python promotes the int operand to float
             if lt == "int":
@@ -410,6 +427,8 @@ class FuncTranslator:
         r, rt = self.expr(e.right)
         op = type(e.op)
         if op is ast.MatMult and self.spec.get("field"):
+            if lt == "arr2" and rt == "arr2":
+                return f"(Py.matMul {l} {r})", "arr2"
             if lt == "arr1" and rt == "arr2":
                 return f"(Py.vecMat {l} {r})", "arr1"
             if lt == "arr1" and rt == "arr1":
@@ -418,7 +437,7 @@ class FuncTranslator:
         if op is ast.Sub and lt == "arr1" and rt == "arr1":
             return f"(Py.Arr1.sub {l} {r})", "arr1"
         if op is ast.Add and lt == "arr2" and rt == "arr2":
-            return f"(Py.Arr2.add {l} {r})", "arr2"
+            return (f"(Py.Arr2.addB {l} {r})" if self.spec.get("field") else f"(Py.Arr2.add {l} {r})"), "arr2"
         if op is ast.Sub and lt == "arr2" and rt == "arr2":
             return f"(Py.Arr2.sub {l} {r})", "arr2"
         islist = lambda t: isinstance(t, tuple) and t[0] == "list"
@@ -433,8 +452,18 @@ class FuncTranslator:
                 return f"(Py.broadcastAdd {l} {r})", "arr1"
         if op is ast.Mult and islist(lt) and rt == "int":
             return f"(Py.repeatList {l} {r})", lt
+        if self.spec.get("field") and op is ast.MatMult and lt == "arr2" and rt == "arr2":
+            return f"(Py.matMul {l} {r})", "arr2"
+        if self.spec.get("field") and op is ast.Add and lt == "int" and rt == "arr2":
+            return f"(Py.Arr2.addB (Py.Arr2.ofInt {l}) {r})", "arr2"
+        if self.spec.get("field") and op is ast.Add and {lt, rt} == {"arr2"}:
+            return f"(Py.Arr2.addB {l} {r})", "arr2"
+        if self.spec.get("field") and op is ast.Mult and lt == "int" and rt == "arr2":
+            return f"(Py.Arr2.scaleInt {l} {r})", "arr2"
+        if self.spec.get("field") and op is ast.Sub and lt == "arr1" and rt == "scalar":
+            return f"(Py.Arr1.subScalar {l} {r})", "arr1"
         if self.spec.get("field") and op in (ast.Add, ast.Sub, ast.Mult, ast.Div) and "scalar" in (lt, rt) \
-                and lt in ("int", "scalar") and rt in ("int", "scalar"):
+                and lt in ("int", "scalar", "rat") and rt in ("int", "scalar", "rat"):
             sym = {ast.Add: "+", ast.Sub: "-", ast.Mult: "*", ast.Div: "/"}[op]
             l, r, _ = self.unify_num(l, lt, r, rt)
             return f"({l} {sym} {r})", "scalar"
@@ -531,6 +560,9 @@ class FuncTranslator:
             el = "scalar" if bt == "arr2" else "int"
             if isinstance(sl, ast.Tuple) and len(sl.elts) == 2:
                 i, it = self.expr(sl.elts[0])
+                if it == ("list", "int") and bt == "arr2" and isinstance(sl.elts[1], ast.Slice) \
+                        and sl.elts[1].lower is None and sl.elts[1].upper is None and sl.elts[1].step is None:
+                    return f"(Py.Arr2.takeRows {base} {i})", "arr2"
                 if it != "int":
                     raise Unsupported("index type")
                 second = sl.elts[1]
@@ -580,10 +612,12 @@ class FuncTranslator:
             name = f.id
         elif isinstance(f, ast.Attribute) and isinstance(f.value, ast.Name):
             name = f"{f.value.id}.{f.attr}"
-        if name is None:
-            raise Unsupported("call target")
         args = e.args
         kw = {k.arg: k.value for k in e.keywords}
+        if name is None and isinstance(f, ast.Attribute) and f.attr in ("reshape", "diagonal"):
+            name = "<method>." + f.attr
+        if name is None:
+            raise Unsupported("call target")
         if name == "int" and len(args) == 1:
             s, t = self.expr(args[0])
             if t == "rat":
@@ -693,6 +727,24 @@ class FuncTranslator:
             t_, tt = self.expr(args[0].comparators[0])
             if at == "arr2" and tt == "scalar":
                 return f"(Py.countAbove {a} {t_})", "int"
+        if name == "np.mean" and len(args) == 1 and self.spec.get("field"):
+            a, at = self.expr(args[0])
+            if at == "arr2" and not kw:
+                return f"(Py.Arr2.meanAll {a})", "scalar"
+            if at == "arr2" and set(kw) == {"axis"} and isinstance(kw["axis"], ast.Constant) and kw["axis"].value == 0:
+                return f"(Py.Arr2.meanAxis0 {a})", "arr1"
+            raise Unsupported("np.mean form")
+        if name == "np.trace" and len(args) == 1 and not kw and self.spec.get("field") and not isinstance(args[0], ast.Call):
+            a, at = self.expr(args[0])
+            if at == "arr2":
+                return f"(Py.Arr2.trace {a})", "scalar"
+        if isinstance(f, ast.Attribute) and f.attr == "reshape" and len(args) == 2 and not kw \
+                and ast.dump(args[0]) == ast.dump(ast.parse("-1", mode="eval").body) \
+                and isinstance(args[1], ast.Constant) and args[1].value == 1:
+            a, at = self.expr(f.value)
+            if at == "arr1":
+                return f"(Py.colOf {a})", "arr2"
+            raise Unsupported("reshape of " + str(at))
         if name == "np.triu_indices" and len(args) == 1 and not kw:
             a, at = self.expr(args[0])
             if at == "int":
@@ -789,7 +841,11 @@ class FuncTranslator:
                 c = self.as_bool(*self.pure_expr(s.test))
                 saved = dict(self.env)
                 rest_lines = self.block(stmts[k + 1:], ind + 2, tail_vars=tail_vars)
+                after = dict(self.env)
                 self.env = saved
+                for n_ in tail_vars:             # a carried variable whose type changed (promotion): let the loop see it
+                    if after.get(n_) != saved.get(n_):
+                        self.env[n_] = after.get(n_)
                 self.tmp += 1
                 res = f"r_{self.tmp}"
                 lines.append(f"{pad}let {res} := if {c} then ({self.tuple_of(tail_vars)})")
@@ -946,14 +1002,17 @@ class FuncTranslator:
         pad = "  " * ind
         promoted_retry = (stage == 2)
         if stage == 0:
-            snapshot = (dict(self.env), self.tmp, self.in_err_loop)
+            snapshot = (dict(self.env), self.tmp, self.in_err_loop, set(self.promoted), self.loop_depth)
             try:
                 return self.for_loop(s, ind, rest, top, stage=1)
             except _Promote as pr:
                 self.env, self.tmp, self.in_err_loop = snapshot[0], snapshot[1], snapshot[2]
-                self.env[pr.name] = "scalar"
-                pre = [f"{pad}let {pr.name} := (({pr.name} : Int) : α)"]
-                return pre + self.for_loop(s, ind, rest, top, stage=2)
+                self.promoted, self.loop_depth = set(snapshot[3]), snapshot[4]
+                self.env[pr.name] = pr.to
+                self.promoted.add((id(s), pr.name))
+                pre = [f"{pad}let {pr.name} := (({pr.name} : Int) : α)" if pr.to == "scalar"
+                       else f"{pad}let {pr.name} := (Py.Arr2.ofInt {pr.name} : Py.Arr2 α)"]
+                return pre + self.for_loop(s, ind, rest, top, stage=0)
         if s.orelse:
             raise Unsupported("for-else")
         it, itt = self.pure_expr(s.iter)
@@ -997,9 +1056,11 @@ class FuncTranslator:
                 # e.g. an empty list that got its element type inside the loop
                 if isinstance(saved.get(n), tuple) and saved[n][0] == "list" and saved[n][1] is None:
                     self.env[n] = newenv[n]
-                elif self.spec.get("field") and saved.get(n) == "int" and newenv.get(n) == "scalar" and not promoted_retry:
-                    # an int accumulator that receives floats: Python promotes it; start the loop from the promoted value
-                    raise _Promote(n)
+                elif self.spec.get("field") and saved.get(n) == "int" and newenv.get(n) in ("scalar", "arr2") \
+                        and (id(s), n) not in self.promoted:
+                    # an int accumulator that receives floats (or matrices: NumPy broadcasts the int): start the loop from
+                    # the promoted value
+                    raise _Promote(n, newenv.get(n))
                 else:
                     raise Unsupported(f"type of {n} changes in the loop")
         lines = []
